@@ -39,3 +39,4 @@ EQUIVALENT = [
     ('iter_chunks index form', T, "        for i0, i1 in zip(self.chunk_bounds[:-1], self.chunk_bounds[1:]):\n            yield i0, i1", "        for i in range(len(self.chunk_bounds) - 1):\n            yield self.chunk_bounds[i], self.chunk_bounds[i + 1]"),
     ('total then append', T, "        if b[-1] != n + arr_size:\n            b.append(n + arr_size)\n        n += arr_size\n", "        n += arr_size\n        if b[-1] != n:\n            b.append(n)\n"),
 ]
+BREAKING.append(('generator stops after a first chunk that covers the data', A, "    yield s_start, s_end, keep_start, keep_end\n\n    while", "    yield s_start, s_end, keep_start, keep_end\n    if s_end >= n_samples:\n        return\n\n    while", ['C16.S1']))
